@@ -63,7 +63,8 @@ def model_with(schema, home, text, seed):
                   'events': [E(1, 'go', ('x', 'integer'), ('flag', 'boolean'), ('s', 'string')), E(2, 'stop now'),
                              E(3, 'set', ('n', 'integer')), E(4, 'work', *[(p['n'], p['ty'], p.get('dims', '')) for p in PARAMS])],
                   'states': [{'n': 'Idle', 'numb': 1, 'body': ''},
-                             {'n': 'Working', 'numb': 2, 'via': 4, 'body': text if home == 'state' else ''}]},
+                             dict({'n': 'Working', 'numb': 2, 'via': 4, 'body': text if home == 'state' else '', 'creation': seed % 3 == 0},
+                                  **({'tbody': text} if home == 'transition' else {}))]},
                  {'kind': 'class', 'events': [E(1, 'tick', ('n', 'integer')), E(2, 'reset')],
                   'states': [{'n': 'Waiting', 'numb': 1, 'body': ''}]}]
     cb['sms'] = [{'kind': 'inst', 'events': [E(1, 'ping', ('n', 'integer'), ('m', 'integer'))],
@@ -88,7 +89,9 @@ def model_with(schema, home, text, seed):
     elif home == 'op':
         inst = m.select_any('O_TFR', xtuml.where_eq(Name='target'))
     elif home == 'state':
-        inst = [a for a in m.select_many('SM_ACT') if one(a).SM_AH[514].SM_MOAH[513].SM_STATE[511]().Name == 'Working'][0]
+        inst = [a for a in m.select_many('SM_ACT') if (one(a).SM_AH[514].SM_MOAH[513].SM_STATE[511]() or a).Name == 'Working'][0]
+    elif home == 'transition':
+        inst = [a for a in m.select_many('SM_ACT') if one(a).SM_AH[514].SM_TAH[513]()][0]
     else:
         inst = m.select_any('O_DBATTR')
     return m, inst
@@ -99,7 +102,7 @@ def violations(m, home):
     V_EPR instance without property parameter, and the ooaofooa schema makes PP_Id part of the identifier of V_EPR: that
     null identifier is what the schema asks for, it is not counted"""
     n = xtuml.check_association_integrity(m)
-    if home != 'state':
+    if home not in ('state', 'transition'):
         return n + xtuml.check_uniqueness_constraint(m)
     return n + sum(xtuml.check_uniqueness_constraint(m, kind) for kind in sorted(m.metaclasses) if kind != 'V_EPR')
 
